@@ -9,7 +9,7 @@
 Require Import Zrs.lib.RsPrelude Zrs.gen.RefTables Zrs.gen.Generated Zrs.model.BitIO Zrs.model.FseDec.
 Require Import Zrs.proofs.C12_Fse.
 Require Import Zrs.model.BitIO Zrs.model.BitStream Zrs.model.SeqEnc Zrs.model.BlockDec Zrs.proofs.C12_Stream Zrs.proofs.C12_SeqStream Zrs.proofs.C12_Predef.
-Require Import Zrs.model.FseEnc Zrs.proofs.C12_Desc.
+Require Import Zrs.model.FseEnc Zrs.model.SeqSection Zrs.proofs.C12_Desc Zrs.proofs.C12_Section.
 Open Scope Z_scope.
 
 Theorem C12_ll_predefined_eq_ref :
@@ -95,6 +95,22 @@ Theorem C12_table_description_roundtrip : forall acc_log probs max_symbol max_lo
     read_probabilities max_symbol (d ++ rest) max_log = ROk (acc_log, probs, Z.of_nat (length d)).
 Proof. exact description_roundtrip. Qed.
 
+(** a whole sequences section: the three table descriptions followed by the bit stream, as the compressor lays them
+    out (mode byte 0xA8), is decoded by [decode_sequences] -- from whatever tables the decoder held before -- into
+    exactly the sequences that were coded, leaving the decoder with the tables of the three distributions.  The side
+    conditions ([section_hyps_b]: normalised distributions within the format's limits, tables that build and tile, every
+    used code covered, values in the coded ranges) are decidable and are evaluated on every section the real compressor
+    emits in the run, where the model's section is also compared byte for byte with the real one. *)
+Theorem C12_sequence_section_roundtrip : forall dl do dm seqs bytes s,
+  section_hyps_b dl do dm seqs = true -> section_bytes dl do dm seqs = ROk bytes ->
+  t_max_symbol (fs_ll s) = MAX_LITERAL_LENGTH_CODE -> t_max_symbol (fs_of s) = MAX_OFFSET_CODE ->
+  t_max_symbol (fs_ml s) = MAX_MATCH_LENGTH_CODE ->
+  exists Dll Dml Dof,
+    build_table MAX_LITERAL_LENGTH_CODE dl = ROk Dll /\ build_table MAX_MATCH_LENGTH_CODE dm = ROk Dml /\
+    build_table MAX_OFFSET_CODE do = ROk Dof /\
+    decode_sequences (Z.of_nat (length seqs)) (Some MODES_ALL_ENCODED) bytes s = ROk (sc Dll Dml Dof, seqs).
+Proof. exact section_bytes_roundtrip. Qed.
+
 Theorem C12_normalised_is_decidable : forall acc_log probs, dist_okb acc_log probs = true -> dist_ok acc_log probs.
 Proof. exact dist_okb_ok. Qed.
 
@@ -105,6 +121,7 @@ Example C12_predefined_distributions_are_normalised :
 Proof. vm_compute. repeat split. Qed.
 
 Print Assumptions C12_table_description_roundtrip.
+Print Assumptions C12_sequence_section_roundtrip.
 Print Assumptions C12_normalised_is_decidable.
 Print Assumptions C12_predefined_sequences_roundtrip.
 Print Assumptions C12_backward_stream_inverse.
